@@ -173,9 +173,22 @@ def slot_of(e):
     return None
 
 
-def is_entry_idx(e, keyarg):
-    """e == self.get_entry_idx(key)"""
+def unopt(e):
+    """the payload of an Option / `?` wrapper around e: `(X as Some).0`, `(Try::branch(X) as Continue).0` -> X"""
     e = strip_refs(e)
+    for _ in range(4):
+        if isinstance(e, tuple) and len(e) == 3 and e[0] == "field" and e[2] == "0" and isinstance(e[1], tuple) and e[1] and e[1][0] == "as" and e[1][2] in ("Some", "Continue", "Ok"):
+            e = strip_refs(e[1][1])
+        elif isinstance(e, tuple) and e and e[0] == "call" and isinstance(e[1], str) and e[1].endswith("Try>::branch") and e[2]:
+            e = strip_refs(e[2][0])
+        else:
+            break
+    return e
+
+
+def is_entry_idx(e, keyarg):
+    """e == self.get_entry_idx(key) (or the payload of its Option, when the empty-table test lives in get_entry_idx)"""
+    e = unopt(e)
     return isinstance(e, tuple) and e[0] == "call" and e[1].endswith("TranspositionTable::get_entry_idx") and \
         strip_refs(e[2][0]) == ("arg", 1, "self") and strip_refs(e[2][1]) == keyarg
 
@@ -502,6 +515,12 @@ def rule_idx(fx, rep):
     n += 1
     good = False
     r = strip_refs(ret)
+    if not (isinstance(r, tuple) and r and r[0] == "binop"):
+        # `-> Option<usize>`: the formula is the payload of the Some path(s)
+        somes = [deep_strip(x[1]) for x in decision_paths(gi, 16) if x[1] is not None and isinstance(deep_strip(x[1]), tuple) and deep_strip(x[1])[0] == "agg" and str(deep_strip(x[1])[1]).endswith("Option::Some")]
+        if len(somes) == 1 and somes[0][2]:
+            r = strip_refs(somes[0][2][0])
+            ret = r
     if isinstance(r, tuple) and r[0] == "binop" and r[1] == "Rem":
         num, den = strip_refs(r[2]), strip_refs(r[3])
         num_ok = isinstance(num, tuple) and num[0] == "cast" and deep_strip(num[1]) == ("field", ("arg", 2, gi.local_name(2)), "0")
@@ -874,6 +893,40 @@ def rule_pref(fx, rep):
         return
     b = cands[0]
 
+    # "entries from earlier searches always give way": on every path on which the two ages were found to differ the answer is
+    # `true`, whatever else is compared (decided path by path, so it also covers predicates the decision table below cannot
+    # reduce - e.g. a depth margin `self.depth <= new.depth.saturating_add(4)` attached to the age test)
+    def age_differs(c, v):
+        co = cmp_op(deep_strip(c)) if isinstance(deep_strip(c), tuple) else None
+        if not co or co[0] not in ("Eq", "Ne"):
+            return None
+        sides = set()
+        for x in (co[1], co[2]):
+            x = deep_strip(x)
+            if isinstance(x, tuple) and x[0] == "field" and x[2] == "age" and isinstance(x[1], tuple) and x[1][0] == "arg":
+                sides.add(x[1][1])
+        if sides != {1, 2}:
+            return None
+        truth = (v != 0) if isinstance(v, int) else True
+        return truth == (co[0] == "Ne")
+    apaths = decision_paths(b, 256)
+    stale_bad = None
+    n_stale = 0
+    if apaths and len(apaths) < 256:
+        for conds, ret, _l in apaths:
+            if ret is None or not any(age_differs(c, v) for c, v in conds):
+                continue
+            n_stale += 1
+            r = deep_strip(ret)
+            if not (isinstance(r, tuple) and r and r[0] == "const" and r[1] in (1, True)):
+                stale_bad = show(ret)[:80]
+    if n_stale:
+        rep.obligation(stale_bad is None)
+        if stale_bad is not None:
+            ok = False
+            rep.violation("C19-PREF", "C19-PREF/stale-gives-way", f"`{b.name}` can answer `{stale_bad}` although the stored entry's age differs from the new one's: an entry left by an earlier search "
+                          "then survives the current search's result for the same slot (and keeps doing so in later searches)", {"fn": b.name, "file": b.file, "line": b.line})
+
     def run_abstract(env):
         """Abstractly execute the predicate: follow the CFG, deciding each switch by cond_eval."""
         bb = 0
@@ -963,6 +1016,8 @@ def rule_pref(fx, rep):
 TTF = "src/engine/transposition_table.rs"
 STT = "src/engine/search/transposition.rs"
 MUTANTS = [
+    {"name": "a stale entry gives way only within a depth margin (seed C19-12a)", "expect": "C19-PREF/stale-gives-way",
+     "edits": __import__("shared_mutants").edits_from_patch("seeded/C19-12a/patch.diff")},
     {"name": "new data inherits the occupant's best move whatever its key (seed C19-11a)", "expect": "C19-POLICY/store/merged",
      "edits": __import__("shared_mutants").edits_from_patch("seeded/C19-11a/patch.diff")},
     {"name": "the constructor allocates for size_mb but records size 0 (seed C19-10a)", "expect": "C19-CLEAR/new/size-field",
